@@ -37,7 +37,7 @@ def plan(tier, seed):
 
 
 def floors(tier):
-    return {"evaluations": 5000, "strata": ["calendar", "timescale", "export"], "events": {"zones_compared": 5}, "distinct_nontrivial": 500}
+    return {"evaluations": 2500, "strata": ["calendar", "timescale", "export"], "events": {"zones_compared": 5}, "distinct_nontrivial": 500}
 
 
 def _stratum(op):
